@@ -101,6 +101,12 @@ impl<S: AsyncRead + Unpin> DltStreamReader<S> {
         let (_, message_len) = parse_length(&self.buffer[storage_len..header_len])?;
         let total_len = storage_len + message_len as usize;
         debug_assert!(total_len <= self.buffer.len());
+        if total_len < header_len {
+            return Err(DltParseError::ParsingHickup(format!(
+                "message length {} is less than the length of the header",
+                message_len
+            )));
+        }
 
         self.source
             .read_exact(&mut self.buffer[header_len..total_len])
